@@ -13,7 +13,7 @@
 
     Everything here is closed under the global context (no axioms). *)
 
-From Coq Require Import ZArith List Bool Lia ZifyBool Permutation Arith.
+From Coq Require Import ZArith List Bool Lia ZifyBool Permutation Arith Sorted.
 From TV Require Import spec.Storage proofs.StorageLemmas.
 Import ListNotations.
 Open Scope Z_scope.
@@ -429,7 +429,6 @@ Proof.
 Qed.
 
 Section Sorted.
-  Import Sorted.
 
   Lemma StronglySorted_app {A} (R : A -> A -> Prop) l1 l2 :
     StronglySorted R l1 -> StronglySorted R l2 ->
@@ -623,3 +622,127 @@ Proof.
   generalize (levels t) as ls. induction ls as [|a ls IH]; intros [|b ds] L; cbn in *; try lia; try reflexivity.
   f_equal. apply IH. lia.
 Qed.
+
+(** * A well-formed tensor passes the library's own structure validation
+
+    [validate] (model/StructureValidate.v) transcribes taco_structure_to_cffi: what pickling and
+    re-use as an input demand.  The converse is false ([validate] does not look at the order of
+    the coordinates inside a segment): see [validate_weaker_example]. *)
+
+From TV Require Import model.StructureValidate.
+
+Lemma validate_levels_wf (ls : list level) : forall (ds : list Z) i n leaf,
+  length ls = length ds ->
+  wf_levelsb (combine ls ds) n = Some leaf ->
+  validate_levels (combine (combine (map mode_of ls) (map indices_of ls)) ds) i n = VNnz leaf.
+Proof.
+  induction ls as [|l ls IH]; intros [|d ds] i n leaf L H; cbn [length] in L; try lia.
+  - cbn in *. now inversion H.
+  - cbn [map combine] in *. destruct l as [|pos crd]; cbn [mode_of indices_of validate_levels wf_levelsb] in *.
+    + destruct (0 <=? d); [|discriminate]. change (0 =? 0) with true. cbn iota.
+      apply IH; [lia|exact H].
+    + destruct (wf_compressedb n d pos crd) eqn:E; [|discriminate].
+      change (1 =? 0) with false. cbn iota.
+      unfold wf_compressedb in E. rewrite !andb_true_iff in E.
+      destruct E as (((((E1 & E2) & E3) & E4) & E5) & E6).
+      apply Z.eqb_eq in E1, E2, E4.
+      assert (0 <= n) as Hn by (pose proof (zlen_nonneg pos); destruct pos; [cbn in E2; lia|rewrite zlen_cons in E1; pose proof (zlen_nonneg pos); lia]).
+      replace (zlen pos =? n + 1) with true by lia. cbn [negb].
+      rewrite (nthZ_indep 0 (-1)) by lia. rewrite E2. change (0 =? 0) with true. cbn [negb].
+      rewrite E3. cbn [negb].
+      replace (zlen pos - 1) with n by lia. rewrite (nthZ_indep 0 (-1)) by lia. rewrite E4.
+      rewrite Z.eqb_refl. cbn [negb]. rewrite E6. cbn [negb].
+      apply IH; [lia|exact H].
+Qed.
+
+Lemma ordering_okb_perm (ord : list nat) :
+  is_permb ord = true -> ordering_okb (zlen ord) (map Z.of_nat ord) = true.
+Proof.
+  intros P. unfold ordering_okb. apply andb_true_iff. split.
+  - apply forallb_forall. intros x Hx. apply in_map_iff in Hx. destruct Hx as (k & <- & Hk).
+    apply (is_permb_In _ P) in Hk. unfold zlen. lia.
+  - apply forallb_forall. intros k Hk. apply In_zrange in Hk. apply existsb_exists.
+    exists k. split; [|apply Z.eqb_refl].
+    apply in_map_iff. exists (Z.to_nat k). split; [lia|].
+    apply (is_permb_In _ P). unfold zlen in Hk. lia.
+Qed.
+
+Theorem wf_implies_validate {V} (t : tensor V) :
+  wf_tensorb true t = true -> validate (to_raw t) = VOk.
+Proof.
+  intros H. pose proof (wf_tensorb_shape _ _ H) as (H1 & H2 & P & Hd).
+  unfold wf_tensorb in H. apply andb_true_iff in H. destruct H as [_ H].
+  destruct (wf_levelsb (combine (levels t) (level_dims t)) 1) as [leaf|] eqn:E; [|discriminate].
+  apply Z.eqb_eq in H.
+  unfold validate, to_raw. cbn [r_modes r_dims r_ordering r_indices r_nvals].
+  rewrite !zlen_map.
+  replace ((zlen (levels t) =? zlen (dims t)) && (zlen (dims t) =? zlen (ordering t))) with true
+    by (unfold zlen; lia).
+  cbn [negb].
+  replace (forallb (fun m => (m =? 0) || (m =? 1)) (map mode_of (levels t))) with true.
+  2:{ symmetry. apply forallb_forall. intros m Hm. apply in_map_iff in Hm.
+      destruct Hm as ([|? ?] & <- & _); reflexivity. }
+  cbn [negb].
+  replace (forallb (fun d => 0 <=? d) (dims t)) with true.
+  2:{ symmetry. apply forallb_forall. intros d Hin. rewrite Forall_forall in Hd. specialize (Hd d Hin). lia. }
+  cbn [negb].
+  replace (zlen (levels t)) with (zlen (ordering t)) by (unfold zlen; lia).
+  rewrite ordering_okb_perm by exact P. cbn [negb].
+  rewrite Z.eqb_refl. cbn [negb].
+  replace (map (fun o => nthZ 0 (dims t) o) (map Z.of_nat (ordering t))) with (level_dims t).
+  2:{ unfold level_dims. rewrite map_map. apply map_ext. intros o. now rewrite nthZ_of_nat. }
+  rewrite (validate_levels_wf _ _ 0 1 leaf).
+  - rewrite H, Z.eqb_refl. reflexivity.
+  - unfold level_dims. rewrite map_length. lia.
+  - exact E.
+Qed.
+
+(** [validate] accepts an unsorted segment which [wf_tensorb] (property C02) rejects. *)
+Example validate_weaker_example :
+  let t := mkTensor [3] [O] [LCompressed [0; 2] [2; 0]] [1; 1] in
+  validate (to_raw t) = VOk /\ wf_tensorb true t = false.
+Proof. vm_compute. split; reflexivity. Qed.
+
+(** * The statement, unfolded (for props/C02.v) and a non-trivial instance *)
+
+Lemma wf_tensor_statement {V} (strict : bool) (t : tensor V) :
+  wf_tensor strict t <->
+  ((length (dims t) = length (ordering t)
+    /\ length (levels t) = length (ordering t)
+    /\ Permutation (seq 0 (length (ordering t))) (ordering t)
+    /\ Forall (fun d => 0 <= d) (dims t))
+   /\ exists leaf, wf_levels (combine (levels t) (level_dims t)) 1 leaf
+                   /\ (if strict then zlen (vals t) = leaf else leaf <= zlen (vals t)))
+  /\ (forall n d pos crd, wf_compressed n d pos crd <->
+        zlen pos = n + 1
+        /\ nthZ (-1) pos 0 = 0
+        /\ (forall i, 0 <= i < n -> nthZ 0 pos i <= nthZ 0 pos (i + 1))
+        /\ nthZ (-1) pos n = zlen crd
+        /\ (forall p q, 0 <= p < n -> nthZ 0 pos p <= q -> q + 1 < nthZ 0 pos (p + 1) ->
+              nthZ (-1) crd q < nthZ (-1) crd (q + 1))
+        /\ (forall c, In c crd -> 0 <= c < d)).
+Proof.
+  split.
+  - intros H. split; [exact H|]. intros. reflexivity.
+  - intros [H _]. exact H.
+Qed.
+
+(** hypotheses of the consequences are satisfiable: a 2 x 3 matrix stored column-major, dense over
+    compressed, with an empty column *)
+Example wf_example :
+  let t := mkTensor [2; 3] [1%nat; 0%nat] [LDense; LCompressed [0; 1; 1; 3] [1; 0; 1]] [5; 6; 7] in
+  wf_tensorb true t = true /\ wf_tensorb false t = true
+  /\ entries 0 t = [([1; 0], 5); ([0; 2], 6); ([1; 2], 7)].
+Proof. vm_compute. repeat split. Qed.
+
+(** ill-formed structures the checker rejects: pos not starting at 0; decreasing pos; unsorted or
+    duplicated coordinates in a segment; coordinate outside the dimension; pos too short / long;
+    too few values *)
+Example wf_rejects :
+  let mk pos crd vals := mkTensor [2; 3] [0%nat; 1%nat] [LDense; LCompressed pos crd] vals in
+  map (wf_tensorb false)
+    [ mk [1; 1; 2] [0; 1] [1; 1]; mk [0; 2; 1] [0; 1] [1; 1]; mk [0; 2; 2] [1; 0] [1; 1];
+      mk [0; 2; 2] [1; 1] [1; 1]; mk [0; 1; 2] [0; 3] [1; 1]; mk [0; 2] [0; 1] [1; 1];
+      mk [0; 1; 2; 2] [0; 1] [1; 1]; mk [0; 1; 2] [0; 1] [1]; mk [0; 1; 3] [0; 1] [1; 1; 1] ]
+  = [false; false; false; false; false; false; false; false; false].
+Proof. vm_compute. reflexivity. Qed.
